@@ -48,6 +48,7 @@ def run(model, rep, tier):
     rep.rule('names-resolve', 'every name used in __eq__/__ne__/__hash__/arithmetic resolves (symtable)')
     rep.rule('eq-implies-hash', 'a class that defines __eq__ defines __hash__')
     rep.rule('hash-subset-exact-eq', 'fields read by __hash__ are compared exactly (==) by __eq__')
+    rep.rule('hash-by-value', 'a field compared by value is hashed by value (or through a fixed dtype), not through its memory representation')
     rep.rule('tolerance-eq-nontransitive', 'fields compared by np.allclose/isclose make == non-transitive')
     rep.rule('cluster-hash-fold', 'Cluster hash cache = xor-fold from 0 over hash(key + shifted position) of the '
                                   'very pairs inserted in the map __eq__ compares')
@@ -133,6 +134,7 @@ def run(model, rep, tier):
                 for f in sorted(hf):
                     if f in info.exact:
                         rep.ob('hash-subset-exact-eq', mod, h, '%s.__hash__ reads %s' % (cname, f), True, engine='eqhash')
+                _hash_by_value(rep, mod, ci, cname, h, info)
                 if tol_read:
                     rep.ob('hash-subset-exact-eq', mod, h,
                            '%s.__hash__ reads tolerance-compared field(s) %s' % (cname, ', '.join(tol_read)), False,
@@ -151,6 +153,49 @@ def run(model, rep, tier):
     rep.floor('value types', n_types, 5)
     _arith(model, rep)
     rep.count('classes', n_types)
+
+
+REPR_CALLS = ('tobytes', 'tostring', 'data', 'view', 'dumps')
+DTYPE_NORMALISERS = ('asarray', 'array', 'ascontiguousarray', 'astype', 'require')
+
+
+def _hash_by_value(rep, mod, ci, cname, h, info):
+    """A field that __eq__ compares by value (``np.all(a == b)``: 1 == 1.0 == np.int32(1)) must be hashed by value as well.
+    ``x.tobytes()`` / ``x.data`` hash the memory representation, which differs between dtypes (int32 / int64 / float64) of
+    equal values, so equal objects land in different buckets -- unless the bytes are taken of the field converted to one
+    fixed dtype, in the hash itself or where the constructor stores the field."""
+    s = h.args.args[0].arg
+    for n in walk_local(h):
+        if not (isinstance(n, ast.Attribute) and n.attr in ('tobytes', 'tostring', 'data')):
+            continue
+        if n.attr == 'data' and isinstance(getattr(n, '_parent', None), ast.Attribute) and n._parent.attr in ('tobytes', 'tostring'):
+            continue  # x.data.tobytes(): reported once, at the outer attribute
+        base = n.value
+        while isinstance(base, ast.Attribute) and base.attr == 'data':
+            base = base.value
+        fields = {x.attr for x in ast.walk(base) if isinstance(x, ast.Attribute) and isinstance(x.value, ast.Name) and x.value.id == s}
+        fields = {f for f in fields if f in info.exact}
+        if not fields:
+            continue
+        # converted to a fixed dtype inside the hash expression?
+        norm = any(isinstance(c, ast.Call) and (dotted(c.func) or '').split('.')[-1] in DTYPE_NORMALISERS
+                   and (any(k.arg == 'dtype' for k in c.keywords) or (dotted(c.func) or '').endswith('astype') or len(c.args) >= 2)
+                   for c in ast.walk(base))
+        # ... or where the constructor stores it
+        for ctor in ('__new__', '__init__'):
+            fn = ci.methods.get(ctor)
+            if fn is None or norm:
+                continue
+            for f in fields:
+                for c in ast.walk(fn):
+                    if isinstance(c, ast.Call) and (dotted(c.func) or '').split('.')[-1] in DTYPE_NORMALISERS \
+                            and (any(k.arg == 'dtype' for k in c.keywords) or (dotted(c.func) or '').endswith('astype')) \
+                            and any(isinstance(x, ast.Name) and x.id == f for x in ast.walk(c)):
+                        norm = True
+        rep.ob('hash-by-value', mod, n, '%s.__hash__: %s of exactly compared field(s) %s' % (cname, unparse(n._parent if isinstance(getattr(n, '_parent', None), ast.Call) else n)[:60], ', '.join(sorted(fields))),
+               norm, '' if norm else '__eq__ compares %s by value but __hash__ uses its memory representation: equal values stored with '
+               'different dtypes (int32 / int64 / float64) hash differently, so an object equal to a member of a set or dict is not '
+               'found there' % ', '.join(sorted(fields)), engine='eqhash')
 
 
 def _is_field_mismatch(text):
@@ -344,8 +389,11 @@ BREAKERS = [
      "    def __hash__(self):\n        return hash(self.pre.data.tobytes()", 'ne-negates-eq'),
     ('onsager/crystal.py', "        return not self.__eq__(other)\n\n    def __hash__(self):\n        \"\"\"Hash, so that we can make sets of group operations\"\"\"",
      "        return self.__eq__(other)\n\n    def __hash__(self):\n        \"\"\"Hash, so that we can make sets of group operations\"\"\"", 'ne-negates-eq'),
-    ('onsager/crystal.py', "return hash(self.rot.data.tobytes()) ^ hash(self.indexmap)", "return hash(self.rot.data.tobytes()) ^ hash(tuple(self.trans))",
-     'hash-subset-exact-eq'),
+    ('onsager/crystal.py', "return hash(np.asarray(self.rot, dtype=int).tobytes()) ^ hash(self.indexmap)",
+     "return hash(np.asarray(self.rot, dtype=int).tobytes()) ^ hash(tuple(self.trans))", 'hash-subset-exact-eq'),
+    ('onsager/crystal.py', "return hash(np.asarray(self.rot, dtype=int).tobytes()) ^ hash(self.indexmap)",
+     "return hash(self.rot.data.tobytes()) ^ hash(self.indexmap)", 'hash-by-value'),
+    ('onsager/crystalStars.py', "return hash((self.i, self.j) + tuple(self.R))", "return hash((self.i, self.j, self.R.tobytes()))", 'hash-by-value'),
     ('onsager/crystalStars.py', "return hash((self.i, self.j) + tuple(self.R))", "return hash((self.i, self.j) + tuple(self.R) + tuple(self.dx))",
      'hash-subset-exact-eq'),
     ('onsager/crystalStars.py', "(self.i == other.i and self.j == other.j and np.all(self.R == other.R))", "(self.i == other.i and np.all(self.R == other.R))",
